@@ -974,7 +974,7 @@ func c05Rows() []row {
 func init() {
 	props["C05"] = func(x *Ctx) {
 		rows := c05Rows()
-		x.rule = fmt.Sprintf("decision table: %d rows (all 43 registered handlers × target kinds file/folder/nested/missing/root/bad path, category/bundle/nested/missing, upload folder/drop box/plain/root/nested, existing/missing account or user, protected/unprotected target × ban options, field-presence variants, multi-effect requests) × 84 requester bitmaps (all-zero, all ones, each single privilege 0..40, all-but-one for each of 0..40); every invocation on its own real server with a file tree, account dir, threaded news, message board, ban file, 3 clients, 1 private chat; full before/after snapshot. thorough adds random bitmaps. non-trivial = invocation of a row that has a governing privilege (the handler reaches a guard); distinct = distinct (row, bitmap)", len(rows))
+		x.rule = fmt.Sprintf("decision table: %d rows (all 43 registered handlers × target kinds file/folder/nested/missing/root/bad path, category/bundle/nested/missing, upload folder/drop box/plain/root/nested, existing/missing account or user, protected/unprotected target × ban options, field-presence variants, multi-effect requests) × requester bitmaps (all-zero, all ones, each single privilege 0..40, all-but-one for every privilege governing a row of the same transaction type; thorough tier: all-but-one for each of 0..40 = 84 bitmaps); every invocation on its own real server with a file tree, account dir, threaded news, message board, ban file, 3 clients, 1 private chat; full before/after snapshot. thorough adds random bitmaps. non-trivial = invocation of a row that has a governing privilege (the handler reaches a guard); distinct = distinct (row, bitmap)", len(rows))
 		x.assume = []string{
 			"direct mode: handlers are called with ClientConns built like handleNewConnection builds them; the requester's in-memory bitmap is set directly",
 			"governing privileges per row are written in harness/c05.go from the property statement and cross-checked with Spec.governing",
@@ -989,25 +989,59 @@ func init() {
 			}
 		}
 		tb := tableBitmaps()
+		// quick tier: zero, ones, every single privilege 0..40, and all-but-one for every privilege that governs
+		// some row of the same transaction type (the row's own bits and its sibling branches); thorough: all 84
+		sibling := map[string]map[int]bool{}
+		for i := range rows {
+			k := rows[i].tokens[0]
+			if sibling[k] == nil {
+				sibling[k] = map[int]bool{}
+			}
+			for _, g := range rows[i].governing {
+				sibling[k][g] = true
+			}
+		}
+		rowBitmaps := func(r *row) []hotline.AccessBitmap {
+			if x.Tier == "thorough" {
+				return tb
+			}
+			l := append([]hotline.AccessBitmap{}, tb[:43]...)
+			for g := 0; g <= 40; g++ {
+				if sibling[r.tokens[0]][g] {
+					l = append(l, hotline.AccessBitmap(withoutBit(allOnes(), g)))
+				}
+			}
+			return l
+		}
+		type cell struct {
+			r *row
+			b hotline.AccessBitmap
+		}
+		var cells []cell
+		for _, r := range plain {
+			for _, b := range rowBitmaps(r) {
+				cells = append(cells, cell{r, b})
+			}
+		}
 		// one case = one (row, bitmap) invocation
-		x.Add(&Family{Name: "decision-table", Quick: len(plain) * len(tb), Thor: len(plain) * len(tb), Run: func(c *Case) {
-			idx := tableIndex(c, len(plain)*len(tb))
-			r := plain[idx/len(tb)%len(plain)]
-			runRow(c, r, []hotline.AccessBitmap{tb[idx%len(tb)]})
+		x.Add(&Family{Name: "decision-table", Quick: len(cells), Thor: len(cells), Run: func(c *Case) {
+			idx := tableIndex(c, len(cells)) % len(cells)
+			r, b := cells[idx].r, cells[idx].b
+			runRow(c, r, []hotline.AccessBitmap{b})
 			c.Dist("row/" + r.name)
 			if idx%1777 == 0 {
-				c.Sample(map[string]any{"family": "decision-table", "row": r.name, "governing": r.governing, "bitmap": bmHex(tb[idx%len(tb)])})
+				c.Sample(map[string]any{"family": "decision-table", "row": r.name, "governing": r.governing, "bitmap": bmHex(b)})
 			}
 		}})
 		// handlers that start delayed goroutines (delete user, disconnect user, editor delete): one case = one row ×
 		// all 84 bitmaps, run concurrently on separate servers and inspected again 3.3 s later
 		x.Add(&Family{Name: "decision-table-delayed", Quick: len(delayed), Thor: len(delayed), Run: func(c *Case) {
 			r := delayed[tableIndex(c, len(delayed))%len(delayed)]
-			runRow(c, r, tb)
+			runRow(c, r, rowBitmaps(r))
 			c.Dist("row/" + r.name)
-			c.Sample(map[string]any{"family": "decision-table-delayed", "row": r.name, "governing": r.governing, "bitmaps": len(tb)})
+			c.Sample(map[string]any{"family": "decision-table-delayed", "row": r.name, "governing": r.governing, "bitmaps": len(rowBitmaps(r))})
 		}})
-		x.Add(&Family{Name: "random-bitmaps", Quick: 150, Thor: 6000, Run: func(c *Case) {
+		x.Add(&Family{Name: "random-bitmaps", Quick: 150, Thor: 3000, Run: func(c *Case) {
 			r := &rows[c.R.Intn(len(rows))]
 			n := 6
 			var bms []hotline.AccessBitmap
